@@ -42,7 +42,7 @@
   structured (`FragHS`).
 
   STRUCTURED bodies (`T_link_structured`, `T_C02_structured`): `if … then … [else …] end if`, `repeat while c`,
-  `repeat with <local> = a [down] to b`, nested to any depth, over the same simple statements / expressions.  Fragment =
+  `repeat with <local> = a [down] to b`, `repeat with <local> in <list expression>`, nested to any depth, over the same simple statements / expressions.  Fragment =
   `FragScriptT s` (agent-link-flow's byte-level fragment, DrxProofs/LinkFlow2Link.lean; every expression form of `FragE` anywhere
   since `FragE0 := FragE`) ∧ `FragScriptX s` (text level, Drx/Link.lean).  The decompiler strips the outer parentheses of an infix
   `repeat while` condition: `dToks` / `ReadOkB` are stated for those tokens (`prSW`), and the reader theorem for them is
@@ -311,7 +311,11 @@ def exStructured : Script :=
             .ifThen (.bin .eq (.var .loc "x".toList) (.str "q".toList))
               [ .put .before (.var .loc "x".toList) (.chunk .word (.int 1) (.int 0) (.chunk .line (.var .param "n".toList) (.int 0) (.field (.str "note".toList)))) ] [] ],
           .repeatWhile (.bin .and (.bin .lt (.var .loc "x".toList) (.bin .mul (.var .param "n".toList) (.int 2))) (.un .not (.key "mouseDown".toList))) [
-            .set (.var .loc "x".toList) (.bin .add (.var .loc "x".toList) (.int 1)) ] ] } ] }
+            .set (.var .loc "x".toList) (.bin .add (.var .loc "x".toList) (.int 1)) ],
+          .set (.var .loc "x".toList) (.int 0),
+          .repeatIn (.var .loc "w".toList) (.list [.int 4, .var .param "n".toList, .call "max".toList [.var .loc "x".toList, .int 2]]) [
+            .ifThen (.bin .gt (.var .loc "w".toList) (.int 3)) [ .call "show".toList [.var .loc "w".toList] ] [],
+            .set (.var .loc "x".toList) (.bin .add (.int 1) (.var .loc "x".toList)) ] ] } ] }
 
 example : FragScriptT exStructured = true := by decide +kernel
 example : FragScriptX exStructured = true := by decide +kernel
@@ -326,7 +330,7 @@ example : ∃ c, compile {} exStructured = .ok c ∧ NamesOk c := by
   | ok c => rw [hc] at h; exact ⟨c, rfl, by simpa [NamesOk] using h⟩
 
 example : String.ofList (mText exStructured) =
-    "on go n\n    set x = 1\n    repeat while not (x >= n)\n        if (x = 3) then\n            repeat with i = 1 to 9\n                show i\n            end repeat\n        else\n            set x = (x + 2)\n        end if\n        show x\n    end repeat\n    repeat with j = (n * 2) down to 1\n        if the mouseDown then\n            exit\n        end if\n    end repeat\n    repeat while the stillDown\n        set the locH of sprite 3 = (the mouseH - the number of chars of the text of field \"note\")\n        set x = word 1 of the title of x\n        delete char 1 of x\n        if (x = \"q\") then\n            put x before word 1 of line n of field \"note\"\n        end if\n    end repeat\n    repeat while (x < (n * 2)) and not the mouseDown\n        set x = (x + 1)\n    end repeat\nend\n" := by
+    "on go n\n    set x = 1\n    repeat while not (x >= n)\n        if (x = 3) then\n            repeat with i = 1 to 9\n                show i\n            end repeat\n        else\n            set x = (x + 2)\n        end if\n        show x\n    end repeat\n    repeat with j = (n * 2) down to 1\n        if the mouseDown then\n            exit\n        end if\n    end repeat\n    repeat while the stillDown\n        set the locH of sprite 3 = (the mouseH - the number of chars of the text of field \"note\")\n        set x = word 1 of the title of x\n        delete char 1 of x\n        if (x = \"q\") then\n            put x before word 1 of line n of field \"note\"\n        end if\n    end repeat\n    repeat while (x < (n * 2)) and not the mouseDown\n        set x = (x + 1)\n    end repeat\n    set x = 0\n    repeat with w in [4, n, max(x, 2)]\n        if (w > 3) then\n            show w\n        end if\n        set x = (1 + x)\n    end repeat\nend\n" := by
   decide +kernel
 
 /-- a flat handler with `the` forms in assignments next to a structured handler -/
